@@ -50,6 +50,14 @@
 //	                          Judged against the CONFIGURED profile with no knowledge of who took which token: at no instant
 //	                          have more requests been fired than tokens of the profile were due.
 //
+//	first <n> <bare 0|1> <segs> <offs> <dur> <trials>
+//	                          <n> instances, each with a REAL coreutil.Waiter of its own, take their FIRST token from one fresh
+//	                          REAL self-starting schedule at the same moment (spin barrier; what `startup: once N` does), <trials>
+//	                          times on a fresh schedule each; bare 1: the leaf schedule itself (once / const), 0: the composite over
+//	                          <segs>; <offs> / <dur> (µs) = token offsets and length of the CONFIGURED profile.  The instant ends as soon as
+//	                          every instance holds its answer; an instance whose token is not yet due is cancelled in its sleep.
+//	                          These cases run one at a time after all the others (they spin).
+//
 // Observation: one field per token, only booleans / inequalities, never raw times:
 //
 //	w:   <ok><slow><not_early><late_enter><late_ret>   (IsSlowDown after Wait; measured instants before/after Wait
@@ -68,6 +76,10 @@
 //	      E=<discard_overflow off, or engine.Run returned within last start + profile length + 2 s + the longest response (+ margin)>
 //	comp: one bit per fired request in order of firing: at least k+1 tokens of the configured profile are due when the k-th (from 0)
 //	      request is fired (profile start = an instant not after the first Next()); then c=<lt|eq|gt> (requests vs tokens)
+//	first: <ahead bits>/<slow bits> c=<requests fired in the instant>: per request fired, in order of firing, "at least k+1 tokens of the
+//	      configured profile were due (profile start = an instant before the barrier opens)" and "NOT (IsSlowDown although fired less
+//	      than 2 s after that instant)"; the observation is that of the first trial with a 0 bit, else that of the first trial
+//	      (trials that took longer than 50 ms say nothing and are skipped; none left: "disturbed")
 //	eng: <F|D><not_early><late2s><sample_ok>            (F fired / D reported as discarded; instant of Shoot entry or of
 //	                                                     the discard report against the token; D: net code 777 + tag)
 //
@@ -1265,6 +1277,140 @@ func runComp(fields []string) string {
 	return "disturbed"
 }
 
+// ---- several instances take their first token from a fresh self-starting schedule at the same moment ----
+
+type cntSched struct {
+	core.Schedule
+	nexts atomic.Int64
+}
+
+func (s *cntSched) Next() (time.Time, bool) {
+	t, ok := s.Schedule.Next()
+	s.nexts.Add(1)
+	return t, ok
+}
+
+func buildFirst(segs string, bare bool) core.Schedule {
+	if !bare {
+		return buildProfile(segs)
+	}
+	f := strings.Split(segs, ".")
+	at := func(i int) int64 { v, _ := strconv.ParseInt(f[i], 10, 64); return v }
+	switch {
+	case f[0] == "once" && len(f) == 2:
+		return schedule.NewOnce(at(1))
+	case f[0] == "const" && len(f) == 3:
+		return schedule.NewConst(float64(at(1)), time.Duration(at(2))*time.Millisecond)
+	}
+	return nil
+}
+
+type firstRes struct {
+	ok, slow bool
+	ret      int64
+}
+
+// one instant: outcome, whether it says anything (the machine did not stall), whether a Wait hung
+func firstTrial(n int, sched core.Schedule, offs []int64) (string, bool, bool) {
+	cs := &cntSched{Schedule: sched}
+	ctx, cancel := context.WithCancel(context.Background())
+	defer cancel()
+	var ready atomic.Int64
+	var release atomic.Bool
+	var t0 time.Time
+	res := make([]firstRes, n)
+	var wg sync.WaitGroup
+	for i := 0; i < n; i++ {
+		wg.Add(1)
+		go func(i int) {
+			defer wg.Done()
+			w := coreutil.NewWaiter(cs) // what instance.Run does
+			ready.Add(1)
+			for !release.Load() { // spin: all instances ask for their first token together
+			}
+			ok := w.Wait(ctx)
+			ret := time.Since(t0).Nanoseconds()
+			res[i] = firstRes{ok: ok, slow: ok && w.IsSlowDown(ctx), ret: ret}
+		}(i)
+	}
+	for ready.Load() < int64(n) {
+		runtime.Gosched()
+	}
+	t0 = time.Now() // not after any Next(): the profile cannot have started earlier
+	release.Store(true)
+	deadline := t0.Add(3 * time.Second)
+	for cs.nexts.Load() < int64(n) {
+		if time.Now().After(deadline) {
+			cancel()
+			return "hang", true, true
+		}
+		runtime.Gosched()
+	}
+	time.Sleep(50 * time.Microsecond)
+	elapsed := time.Since(t0)
+	cancel() // instances asleep until a later token give up
+	done := make(chan struct{})
+	go func() { wg.Wait(); close(done) }()
+	select {
+	case <-done:
+	case <-time.After(3 * time.Second):
+		return "hang", true, true
+	}
+	var fired []firstRes
+	for _, r := range res {
+		if r.ok {
+			fired = append(fired, r)
+		}
+	}
+	sort.Slice(fired, func(i, j int) bool { return fired[i].ret < fired[j].ret })
+	var ahead, slow strings.Builder
+	for k, r := range fired {
+		due := 0
+		for _, o := range offs {
+			if o <= r.ret {
+				due++
+			}
+		}
+		ahead.WriteString(b(due >= k+1))
+		slow.WriteString(b(!(r.slow && r.ret < window)))
+	}
+	if len(fired) == 0 {
+		ahead.WriteString("-")
+		slow.WriteString("-")
+	}
+	return fmt.Sprintf("%s/%s c=%d", ahead.String(), slow.String(), len(fired)), elapsed <= 50*time.Millisecond, false
+}
+
+func runFirst(fields []string) string {
+	n64, _ := strconv.ParseInt(fields[0], 10, 64)
+	n := int(n64)
+	bare := fields[1] == "1"
+	offs := parseUs(fields[3])
+	trials, _ := strconv.ParseInt(fields[5], 10, 64)
+	if n < 1 || n > 16 || trials < 1 || trials > 100000 || buildFirst(fields[2], bare) == nil {
+		return "unknown-case"
+	}
+	first := ""
+	for t := int64(0); t < trials; t++ {
+		out, valid, hang := firstTrial(n, buildFirst(fields[2], bare), offs)
+		if hang {
+			return out
+		}
+		if strings.Contains(strings.Split(out, " ")[0], "0") {
+			return out // a request ahead of the profile / judged late at the start: true whatever the machine did meanwhile
+		}
+		if valid && first == "" {
+			first = out
+		} else if valid && out != first {
+			return "mixed:" + first + "|" + out
+		}
+	}
+	if first == "" {
+		return "disturbed"
+	}
+	return first
+}
+
 type oneSchedule struct {
 	t    time.Time
 	used bool
@@ -1354,6 +1500,10 @@ func runCase(c string, idx int) string {
 	case "ph":
 		if len(f) == 5 || len(f) == 7 {
 			return runPh(f[1:])
+		}
+	case "first":
+		if len(f) == 7 {
+			return runFirst(f[1:])
 		}
 	case "comp":
 		if len(f) == 4 {
@@ -1738,6 +1888,63 @@ func gen(r *vh.Rand, tier string) []string {
 		out = append(out, fmt.Sprintf("pool %s %s %s %s %s", b(discard), b(perinst), joinMs(starts), spec, strings.Join(ds, "/")))
 		made++
 	}
+	// several instances taking their first token from a fresh self-starting schedule at the same moment (`startup: once N`)
+	nF, trialsF := 8, 400
+	if tier == "thorough" {
+		nF, trialsF = 40, 1500
+	}
+	for made := 0; made < nF; {
+		n := r.Range(2, 8)
+		bare := r.Chance(1, 2)
+		var segs []string
+		var offs []int64
+		start := int64(0)
+		addOnce := func() {
+			k := r.Range(1, n+1)
+			segs = append(segs, fmt.Sprintf("once.%d", k))
+			for j := 0; j < k; j++ {
+				offs = append(offs, start)
+			}
+		}
+		addConst := func() {
+			ops := int64(r.PickInt([]int{1, 2, 4, 5}))
+			dur := int64(r.PickInt([]int{1000, 2000, 3000})) * ms
+			segs = append(segs, fmt.Sprintf("const.%d.%d", ops, dur/ms))
+			for k := int64(0); k < ops*dur/(1000*ms); k++ {
+				offs = append(offs, start+k*(1000*ms/ops))
+			}
+			start += dur
+		}
+		if bare {
+			if r.Chance(1, 6) {
+				addOnce()
+			} else {
+				addConst()
+			}
+		} else {
+			if r.Chance(1, 4) { // the profile opens with a pause: nothing is due at the start
+				dur := int64(r.PickInt([]int{300, 500})) * ms
+				segs = append(segs, fmt.Sprintf("pause.%d", dur/ms))
+				start += dur
+			}
+			for i, m := 0, r.Range(1, 3); i < m; i++ {
+				if r.Chance(1, 3) {
+					addOnce()
+				} else {
+					addConst()
+				}
+			}
+		}
+		if len(offs) == 0 || len(offs) > 24 {
+			continue
+		}
+		var offsUs []string
+		for _, o := range offs {
+			offsUs = append(offsUs, strconv.FormatInt(o/1000, 10))
+		}
+		out = append(out, fmt.Sprintf("first %d %s %s %s %d %d", n, b(bare), strings.Join(segs, ";"), strings.Join(offsUs, ","), start/1000, trialsF))
+		made++
+	}
 	cnt := 0
 	for cnt < nE {
 		discard := r.Chance(3, 4)
@@ -1771,6 +1978,9 @@ func main() {
 		var wg sync.WaitGroup
 		sem := make(chan struct{}, 64)
 		for i, c := range cases {
+			if strings.HasPrefix(c, "first ") {
+				continue // spinning callers: one case at a time, after the timed cases
+			}
 			wg.Add(1)
 			sem <- struct{}{}
 			go func(i int, c string) {
@@ -1780,6 +1990,11 @@ func main() {
 			}(i, c)
 		}
 		wg.Wait()
+		for i, c := range cases {
+			if strings.HasPrefix(c, "first ") {
+				out[i] = runCase(c, i)
+			}
+		}
 		return out
 	})
 }
